@@ -222,7 +222,7 @@ func sizesAround(counts ...int) []int {
 func (s c18Suite) Gen(rng *Rng, tier string, w *bufio.Writer, stats *Stats) {
 	nDB, perDB := 36, 14
 	if tier == "thorough" {
-		nDB, perDB = 220, 20
+		nDB, perDB = 100, 20
 	}
 	caseNo := 0
 	for d := 0; d < nDB; d++ {
@@ -294,7 +294,7 @@ func (s c18Suite) Gen(rng *Rng, tier string, w *bufio.Writer, stats *Stats) {
 			stats.Inc("codec." + c.codec)
 		}
 		// every crash point of one configuration with more relationships than the shard size (when the database has them)
-		if d%6 == 0 || tier == "thorough" && d%3 == 0 {
+		if d%6 == 0 || tier == "thorough" && d%5 == 0 {
 			caseNo++
 			fmt.Fprintf(w, "# case %d db=%d every-crash-point codec=none batch=2 shard=2\n", caseNo, d)
 			fmt.Fprintln(w, "reset")
